@@ -4,7 +4,7 @@ P=$1; shift
 if [ $# -eq 0 ]; then set -- $(ls /verif/seeded | grep "^$P-"); fi
 for s in "$@"; do
   if git -C /repo apply /verif/seeded/$s/patch.diff 2>/dev/null; then
-    r=$(cd /verif && ./check $P 2>&1 | grep -E "^(VIOLATION|OK|FAIL)" | tr '\n' ' ')
+    r=$(cd /verif && timeout 900 ./check $P 2>&1 | grep -E "^(VIOLATION|OK|FAIL)" | tr '\n' ' ')
     echo "$s on $P: $r"
   else
     echo "$s: patch does not apply"
